@@ -11,6 +11,7 @@ __author__ = "Christian Donner"
 from jax.random import PRNGKey
 import jax
 from jax import numpy as jnp
+import numpy as np
 
 # from .
 from . import measure
@@ -178,8 +179,10 @@ class GaussianPDF(measure.GaussianMeasure):
         """
         from . import conditional
 
-        dim_xy = jnp.arange(self.D, dtype=jnp.int32)
-        dim_x = jnp.setxor1d(dim_xy, dim_y)
+        # The complement has a data-dependent size: compute it on the host so that
+        # condition_on also works inside jit / vmap (dim_y must be a concrete index array).
+        dim_xy = np.arange(self.D, dtype=np.int32)
+        dim_x = np.setxor1d(dim_xy, np.asarray(dim_y))
         # dim_x = dim_xy[jnp.logical_not(jnp.isin(dim_xy, dim_y))]
         Lambda_x = self.Lambda[:, dim_x][:, :, dim_x]
         Sigma_x, ln_det_Lambda_x = invert_matrix(Lambda_x)
